@@ -60,7 +60,9 @@ func (c *ErrorCodeAttribute) GetFrom(m *Message) error {
 		return io.ErrUnexpectedEOF
 	}
 	var (
-		class  = uint16(value[errorCodeClassByte])
+		// Only the three low bits are the class; the rest of the first 21
+		// bits is reserved and ignored (RFC 5389 Section 15.6).
+		class  = uint16(value[errorCodeClassByte] & 0x07)
 		number = uint16(value[errorCodeNumberByte])
 		code   = int(class*errorCodeModulo + number)
 	)
